@@ -43,28 +43,31 @@ Lemma alloc_ok : forall h nm pr ps h' r, hinv h -> refs_ok h ps -> alloc h nm pr
 Proof.
   intros h nm pr ps h' r Hi Hps H. unfold alloc in H. inversion H; subst. split; [|split; [|split; [|split]]].
   - apply hinv_alloc; auto.
-    + intros p Hp. apply uniq_In in Hp. auto.
+    + intros p Hp. apply (proj1 (uniq_In _ _)) in Hp. auto.
     + apply uniq_NoDup.
   - rewrite app_length. simpl. lia.
   - reflexivity.
   - intros. apply get_app_old. auto.
-  - unfold parents. replace (length h) with (length h + 0) at 2 by lia. rewrite get_app_new. reflexivity.
+  - unfold parents. rewrite get_app_here. reflexivity.
 Qed.
+
+Local Opaque alloc.
 
 Lemma pres_add_node : forall op idx pr, pres (add_node_f op idx pr).
 Proof.
-  intros op idx pr (h, hs) (Hi & Hr). simpl in *. destruct op as [nm|]; [|auto].
+  intros op idx pr (h, hs) Hb. assert (Hid := pres_id (h, hs) Hb). destruct Hb as (Hi & Hr).
+  simpl in *. destruct op as [nm|]; [|auto].
   destruct (norm_idx (length hs) idx) as [i|] eqn:En.
   - apply norm_idx_lt in En.
     destruct (alloc h (Some nm) pr [nth i hs 0]) as (h', r) eqn:Ea.
     apply alloc_ok in Ea; auto.
     + destruct Ea as (Hi' & Hl & -> & _). simpl. split; [split; auto|lia].
-      intros x Hx. apply set_nth_In in Hx. destruct Hx as [->|Hx]; [lia|]. apply Hr in Hx. lia.
+      intros x Hx. simpl in *. apply set_nth_In in Hx. destruct Hx as [->|Hx]; [lia|]. apply Hr in Hx. lia.
     + intros x [<-|[]]. apply Hr. apply nth_In. auto.
   - destruct (alloc h (Some nm) pr []) as (h', r) eqn:Ea.
     apply alloc_ok in Ea; auto.
     + destruct Ea as (Hi' & Hl & -> & _). simpl. split; [split; auto|lia].
-      intros x Hx. apply in_app_or in Hx. destruct Hx as [Hx|[<-|[]]]; [|lia]. apply Hr in Hx. lia.
+      intros x Hx. simpl in *. apply in_app_or in Hx. destruct Hx as [Hx|[<-|[]]]; [|lia]. apply Hr in Hx. lia.
     + intros x [].
 Qed.
 
@@ -101,10 +104,11 @@ Qed.
 
 Lemma pres_add_branch : forall ops idx, pres (add_branch_f ops idx).
 Proof.
-  intros ops idx (h, hs) Hb. unfold add_branch_f. destruct (filter truthy ops) as [|o ops'] eqn:Ef; [auto|].
+  intros ops idx (h, hs) Hb. assert (Hid := pres_id (h, hs) Hb).
+  unfold add_branch_f. destruct (filter truthy ops) as [|o ops'] eqn:Ef; [auto|].
   destruct (norm_idx (length hs) idx) as [i|] eqn:En.
-  - apply norm_idx_lt in En. destruct Hb as (Hi & Hr). simpl in *.
-    apply add_branch_ins_ok; simpl.
+  - apply norm_idx_lt in En. destruct Hb as (Hi & Hr). cbn [fst snd] in *.
+    apply (add_branch_ins_ok (o :: ops')); cbn [fst snd].
     + split; auto. intros x Hx. apply remove_at_In in Hx. auto.
     + apply Hr. apply nth_In. auto.
   - apply (pres_fold operation (fun s o => add_op_f o (Z.of_nat (length (snd s))) s) (o :: ops')); auto.
@@ -113,11 +117,12 @@ Qed.
 
 Lemma pres_join : forall op pr, pres (join_f op pr).
 Proof.
-  intros op pr (h, hs) (Hi & Hr). simpl in *. destruct hs as [|x hs]; [auto|]. destruct op as [nm|]; [|auto].
+  intros op pr (h, hs) Hb. assert (Hid := pres_id (h, hs) Hb). destruct Hb as (Hi & Hr).
+  simpl in *. destruct hs as [|x hs]; [auto|]. destruct op as [nm|]; [|auto].
   destruct (String.eqb nm ""); [auto|].
   destruct (alloc h (Some nm) pr (x :: hs)) as (h', r) eqn:Ea. apply alloc_ok in Ea; auto.
   destruct Ea as (Hi' & Hl & -> & _). simpl. split; [split; auto|lia].
-  intros y [<-|[]]. lia.
+  intros y [<-|[]]. simpl. lia.
 Qed.
 
 (* ------------------------------------------------------------------ skip connection *)
@@ -167,21 +172,21 @@ Proof.
   destruct (deepcopy_total h hs Hi Hr) as (h1 & ns1 & E1). rewrite E1.
   destruct (deepcopy_hinv _ _ _ _ Hi Hr E1) as (Hi1 & L1 & F1 & R1 & C1).
   destruct ns1 as [|n1 ns1'].
-  - exists h1, None. repeat split; auto. intros g Hg. discriminate.
+  - exists h1, None. split; [reflexivity|]. split; [auto|]. split; [auto|]. split; [auto|]. intros g Hg. discriminate.
   - assert (Hr1 : refs_ok h1 hs) by (eapply refs_ok_mono; eauto).
     destruct (deepcopy_total h1 hs Hi1 Hr1) as (h2 & ns2 & E2). rewrite E2.
     destruct (deepcopy_hinv _ _ _ _ Hi1 Hr1 E2) as (Hi2 & L2 & F2 & R2 & C2).
     assert (Hv2 : forall r, In r ns2 -> r < length h2) by (intros r Hin; apply R2 in Hin; lia).
-    destruct Hi2 as (Hc2 & Hn2 & Ha2).
+    assert (Hc2 : closed h2) by apply Hi2.
     destruct (lg_nodes_total h2 ns2 Hc2 Hv2) as (g & Eg). rewrite Eg.
-    exists h2, (Some g). repeat split; auto; try lia.
+    exists h2, (Some g). split; [reflexivity|]. split; [auto|]. split; [lia|]. split.
     + intros x Hx. rewrite F2 by lia. auto.
-    + inversion H; subst g0. apply lg_nodes_facts in Eg. destruct Eg as (_ & _ & Hre & _).
-      destruct (Hre r H0) as (s & Hs & Hreach).
-      assert (length h1 <= r).
-      { apply (reach_pclosed h2 (fun z => length h1 <= z) s r); auto.
-        - intros a b Ha Hb. apply (C2 a b Ha Hb).
-        - apply R2 in Hs. lia. }
-      lia.
-    + inversion H; subst g0. eapply lg_nodes_valid; eauto.
+    + intros g0 Hg r Hin. inversion Hg; subst g0. split.
+      * pose proof (lg_nodes_facts _ _ _ _ Eg) as (_ & _ & Hre & _).
+        destruct (Hre r Hin) as (s & Hs & Hreach).
+        assert (length h1 <= r); [|lia].
+        apply (reach_pclosed h2 (fun z => length h1 <= z) s r); auto.
+        -- intros a b Ha Hb. apply (C2 a b Ha Hb).
+        -- apply R2 in Hs. lia.
+      * eapply lg_nodes_valid; eauto.
 Qed.
